@@ -232,40 +232,48 @@ def isNeutral (nm : Nat) (t : Tm) : Bool := effect nm t == some .neutral
 
 def macrosOk (env : List Tm) : Bool := env.all (isNeutral env.length)
 
-/-- Executable acceptor for the correspondence: the possible remainders after `t` has consumed a prefix of `s`. -/
-def balancedPrefixes : Nat → List Tok → List (List Tok)
-  | _, [] => [[]]
-  | d, .op t :: s => (if d = 0 then [.op t :: s] else []) ++ balancedPrefixes (d + 1) s
-  | d, .vd t :: s => (if d = 0 then [.vd t :: s] else []) ++ balancedPrefixes d s
-  | 0, .cl t :: s => [.cl t :: s]
-  | d + 1, .cl t :: s => (if d + 1 = 0 then [.cl t :: s] else []) ++ balancedPrefixes d s
+/-- Executable acceptor for the correspondence (not used by the theorems): the possible remainders, each with its
+length, after `t` has consumed a prefix of `s`. -/
+abbrev Rem := Nat × List Tok
 
-def suffixes : List Tok → List (List Tok)
-  | [] => [[]]
-  | t :: s => (t :: s) :: suffixes s
+def balancedPrefixes : Nat → Rem → List Rem
+  | _, (_, []) => [(0, [])]
+  | d, (n, .op t :: s) => (if d = 0 then [(n, .op t :: s)] else []) ++ balancedPrefixes (d + 1) (n - 1, s)
+  | d, (n, .vd t :: s) => (if d = 0 then [(n, .vd t :: s)] else []) ++ balancedPrefixes d (n - 1, s)
+  | 0, (n, .cl t :: s) => [(n, .cl t :: s)]
+  | d + 1, (n, .cl _ :: s) => balancedPrefixes d (n - 1, s)
 
-def dedupLen (l : List (List Tok)) : List (List Tok) :=
-  l.foldr (fun s acc => if acc.any (fun r => r.length == s.length) then acc else s :: acc) []
+def suffixes : Rem → List Rem
+  | (_, []) => [(0, [])]
+  | (n, t :: s) => (n, t :: s) :: suffixes (n - 1, s)
 
-def accept (env : List Tm) : Nat → Tm → List Tok → List (List Tok)
+def dedupLen (l : List Rem) : List Rem :=
+  l.foldr (fun s acc => if acc.any (fun r => r.1 == s.1) then acc else s :: acc) []
+
+/-- the alternatives of a (right-nested) `alt` chain -/
+def altList : Tm → List Tm
+  | .alt a b => a :: altList b
+  | t => [t]
+
+def accept (env : List Tm) : Nat → Tm → Rem → List Rem
   | 0, _, _ => []
   | _ + 1, .eps, s => [s]
   | _ + 1, .tok t, s => match s with
-    | x :: r => if x = t then [r] else []
-    | [] => []
+    | (n, x :: r) => if x = t then [(n - 1, r)] else []
+    | (_, []) => []
   | _ + 1, .chars _, s => [s]
   | _ + 1, .snip _, s => dedupLen (balancedPrefixes 0 s)
   | _ + 1, .wild _, s => suffixes s
   | f + 1, .seq a b, s => dedupLen ((accept env f a s).flatMap (accept env f b))
-  | f + 1, .alt a b, s => dedupLen (accept env f a s ++ accept env f b s)
+  | f + 1, .alt a b, s => dedupLen ((a :: altList b).eraseDups.flatMap (fun t => accept env f t s))
   | f + 1, .star a, s =>
-    dedupLen (s :: ((accept env f a s).filter (fun r => r.length < s.length)).flatMap (accept env f (.star a)))
+    dedupLen (s :: ((accept env f a s).filter (fun r => r.1 < s.1)).flatMap (accept env f (.star a)))
   | f + 1, .call m, s => match env[m]? with
     | some b => accept env f b s
     | none => []
 
 def accepts (env : List Tm) (fuel : Nat) (t : Tm) (s : List Tok) : Bool :=
-  (accept env fuel t s).any (·.isEmpty)
+  (accept env fuel t (s.length, s)).any (fun r => r.1 == 0)
 
 /-! ## The expression-leaf table -/
 
